@@ -156,7 +156,7 @@ func cmdCheck(args []string) {
 		}
 		results = append(results, p.verifyFunc(fn, ct))
 	}
-	timeout := 10
+	timeout := 20
 	all := false
 	if *tier == "thorough" {
 		timeout = 60
@@ -166,8 +166,6 @@ func cmdCheck(args []string) {
 	os.RemoveAll(rdir)
 	os.MkdirAll(rdir, 0o755)
 	smtDir := filepath.Join(rdir, "smt")
-	runObligations(results, smtDir, timeout, seed, all)
-
 	// lock file
 	lockFile := filepath.Join(vdir, "obligations.lock.json")
 	lock := map[string][]string{}
@@ -178,6 +176,9 @@ func cmdCheck(args []string) {
 	for _, n := range lock[*prop] {
 		locked[n] = true
 	}
+	retryFilter = func(name string) bool { return locked[name] }
+	runObligations(results, smtDir, timeout, seed, all)
+
 	// in-repository callees without contract that could not be inlined, per function
 	// under contract; the pinned set is kept in the lock file
 	pinnedOpaque := map[string]bool{}
